@@ -7,7 +7,7 @@ RULE = ("conventional files (all delimiter/comment sets) with one malformed line
         "after the bracket, empty section name, key + text without delimiter under non-blank delimiter sets) injected at "
         "every position, followed by arbitrary further lines; expected code and 1-based line from the Coq spec (BadLines.v) "
         "recomputed independently here; error location file; no object handed back; the same malformed lines inside the main file or a drop-in of layered reads (all four call shapes, with and without JOIN_SAME_ENTRIES / PYTHON_STYLE on the handle), compared with the model incl. error location; every error code's message and two "
-        "out-of-range codes; missing file; distinct by bytes")
+        "out-of-range codes; missing file; the same relative name read again after chdir between directories that hold different (well-formed and malformed) files of that name, each compared with the read of that file by its absolute name; distinct by bytes")
 
 CODES = {"nobracket": 9, "textafter": 12, "empty": 11, "nodelim": 10}
 
@@ -94,10 +94,40 @@ def gen(rng, tier):
                 "readdirs 1 %s %s %s x636f6e66 x3d x23" % (enc(b"/good"), enc(rng.choice([b"/mf/plain.conf", b"/mf/none", b"/mf/" + long])), enc(b"app")), "dump 1",
                 "readdirs 2 %s %s %s x636f6e66 x3d x23" % (enc(rng.choice([b"/mf/plain.conf", b"/mf/none"])), enc(b"/mf/none2"), enc(b"app")), "dump 2"]
         out.append(Scenario(cmds, [False] * 5 + [True] * 6, tags=("missing",)))
+    # the same RELATIVE name read again after the process has changed its working directory (the two directories hold
+    # different files of that name: well-formed ones, and malformed ones at different lines): each read answers for the
+    # file the name denotes NOW - code, error location (absolute name of that file, its line) and no object - exactly as
+    # the read of that file by its absolute name does right afterwards (the model has no working directory: the
+    # comparison is between the two reads of the implementation)
+    def body(j):
+        ls = [b"k%d=%d" % (i, i) for i in range(rng.randrange(0, 6))]
+        r = rng.random()
+        if r < 0.35: return b"\n".join([b"[main]"] + ls) + b"\n"
+        bad = rng.choice([b"[broken", b"[sec] junk", b"[]", b"key value"])
+        return b"\n".join(ls + [bad] + [b"after=1"] * rng.randrange(0, 3)) + rng.choice([b"\n", b""])
+    for j in range(60 if tier == "quick" else 1500):
+        nm = rng.choice([b"app.conf", b"x", b"sub/app.conf"])
+        dirs = [b"/cw/a", b"/cw/b", b"/cw/c/deeper"]
+        cmds = [trees.fsdir(b"/cw"), trees.fsdir(b"/cw/c")]
+        for d in dirs:
+            cmds += [trees.fsdir(d), trees.fsdir(d + b"/sub"), trees.fsfile(d + b"/" + nm, body(j))]
+        k = len(cmds); pairs = []
+        for d in [rng.choice(dirs) for _ in range(rng.randrange(2, 6))]:
+            cmds.append("chdir " + enc(d))
+            dl = rng.choice(["x3d x23", "x3d x23", "x3a x3b"])
+            pairs.append((len(cmds), len(cmds) + 3))
+            cmds += ["readfile 0 %s %s" % (enc(nm), dl), "errloc", "dump 0", "readfile 1 %s %s" % (enc(d + b"/" + nm), dl), "errloc", "dump 1"]
+        sc = Scenario(cmds, [False] * len(cmds), tags=("cwd",))
+        sc.pairs = pairs
+        out.append(sc)
     out.append(Scenario(["errstring %d" % i for i in range(0, 27)] + ["errstring 1000"], tags=("messages",)))
     return out
 
 def oracle(s, ilines):
+    for (a, b) in getattr(s, "pairs", []):
+        for i in range(3):
+            if ilines[a + i] != ilines[b + i]:
+                return "read by a relative name after chdir differs from the read of the same file by its absolute name: %s: %s | %s" % (s.cmds[a + i].split()[0], ilines[a + i][:200], ilines[b + i][:200])
     w = getattr(s, "want", None)
     if w is None: return None
     if ilines[0] != w: return "expected %s, implementation %s" % (w, ilines[0])
